@@ -193,11 +193,8 @@ def run_all(tier, workdir):
     sfile, tfile = os.path.join(wd, "schedules.ndjson"), os.path.join(wd, "trace.ndjson")
     for lo in range(0, len(scheds), BATCH):
         part = scheds[lo:lo + BATCH]
-        with open(sfile, "w") as f:
-            for x in part:
-                f.write(json.dumps(x) + "\n")
         tx = time.time()
-        xs = vlib.run_x(["yata-run", "--in", sfile, "--out", tfile, "--seed", str(seed)])
+        xs = vlib.run_x_sched(part, sfile, tfile, ["--seed", str(seed)])
         for k in nx:
             nx[k] += xs.get(k, 0)
         tv = time.time()
@@ -211,13 +208,11 @@ def run_all(tier, workdir):
         tx = time.time()
         for i in range(lo, min(plan["random"], lo + 6)):
             rs, rt = os.path.join(wd, "rs%d.ndjson" % i), os.path.join(wd, "rt%d.ndjson" % i)
-            xs = vlib.run_x(["yata-random", "--out-sched", rs, "--out", rt, "--seed", str(yata_pipe._h(seed, i, "events") % (1 << 31)),
-                             "--behaviours", str(150 if tier == "quick" else 400), "--ops", str(12 if i % 2 == 0 else 40),
-                             "--ext", "events", "--gc-off", "0"])
-            for k in nx:
-                nx[k] += xs.get(k, 0)
-            with open(rs) as f:
-                rsch += [json.loads(ln) for ln in f if ln.strip()]
+            r1, _ncr = vlib.run_x_random(rs, rt, ["--seed", str(yata_pipe._h(seed, i, "events") % (1 << 31)),
+                                                  "--ops", str(12 if i % 2 == 0 else 40), "--ext", "events", "--gc-off", "0"],
+                                         150 if tier == "quick" else 400)
+            nx["behaviours"] += len(r1)
+            rsch += r1
             with open(tfile, "a") as out, open(rt) as f:
                 shutil.copyfileobj(f, out)
             os.remove(rs)
